@@ -1,6 +1,7 @@
 package main
 
 import (
+	"encoding/json"
 	"path/filepath"
 	"sort"
 	"runtime/debug"
@@ -113,6 +114,13 @@ func main() {
 		base := fs.String("base", "", "reference tree")
 		fs.Parse(os.Args[2:])
 		os.Exit(cmdAffected(*repo, *base))
+	case "fingerprints":
+		// fingerprints -repo R: body fingerprints of the functions under contract (committed as /verif/fingerprints.json;
+		// used to find a function under contract again after it was renamed)
+		fs := flag.NewFlagSet("fingerprints", flag.ExitOnError)
+		repo := fs.String("repo", "/repo", "tree")
+		fs.Parse(os.Args[2:])
+		os.Exit(cmdFingerprints(*repo))
 	case "replay":
 		fs := flag.NewFlagSet("replay", flag.ExitOnError)
 		repo := fs.String("repo", "/repo", "repository")
@@ -142,6 +150,7 @@ func cmdFn(repo, name, prop string, verbose bool) int {
 		return 2
 	}
 	e.contracts = cs
+	e.resolveRenamed()
 	e.known = &KnownFile{}
 	e.solver, err = newSolver()
 	if err != nil {
@@ -347,4 +356,86 @@ func cmdAffected(repo, base string) int {
 	}
 	fmt.Println(strings.Join(out, ","))
 	return 0
+}
+
+// bodyFingerprint: the SSA text of a function without positions and without its header (so that it survives a rename)
+func bodyFingerprint(fn *ssa.Function) string {
+	var sb strings.Builder
+	fn.WriteTo(&sb)
+	for _, an := range fn.AnonFuncs {
+		an.WriteTo(&sb)
+	}
+	var keep []string
+	for _, l := range strings.Split(sb.String(), "\n") {
+		if strings.HasPrefix(l, "#") || strings.HasPrefix(l, "func ") {
+			continue
+		}
+		keep = append(keep, l)
+	}
+	text := strings.Join(keep, "\n")
+	// its own name (closures are named after it, recursion mentions it) is not part of its identity
+	text = strings.ReplaceAll(text, fn.String(), "SELF")
+	text = strings.ReplaceAll(text, fn.Name()+"$", "SELF$")
+	h := sha256.Sum256([]byte(text))
+	return hex.EncodeToString(h[:10])
+}
+
+func cmdFingerprints(repo string) int {
+	e, err := loadEngine(repo)
+	if err != nil {
+		fmt.Fprintln(os.Stderr, err)
+		return 2
+	}
+	cs, err := loadContracts(filepath.Join(repo, "verif_contracts.go"))
+	if err != nil {
+		fmt.Fprintln(os.Stderr, err)
+		return 2
+	}
+	e.contracts = cs
+	out := map[string]string{}
+	for _, fnn := range cs.order {
+		if fn := e.findFunction(fnn); fn != nil && len(fn.Blocks) >= 1 {
+			out[fnn] = bodyFingerprint(fn)
+		}
+	}
+	data, _ := json.MarshalIndent(out, "", " ")
+	fmt.Println(string(data))
+	return 0
+}
+
+// resolveRenamed: a function under contract that no longer exists under its name is looked for by the fingerprint of its
+// body (recorded in /verif/fingerprints.json on the verified tree). A unique match is taken to be the same function
+// under a new name: its contract, and the contracts that mention it, keep working.
+func (e *Engine) resolveRenamed() {
+	data, err := os.ReadFile(filepath.Join(verifRoot, "fingerprints.json"))
+	if err != nil {
+		return
+	}
+	known := map[string]string{}
+	if json.Unmarshal(data, &known) != nil {
+		return
+	}
+	var byFP map[string][]*ssa.Function
+	for _, fnn := range e.contracts.order {
+		if e.findFunction(fnn) != nil {
+			continue
+		}
+		fp, ok := known[fnn]
+		if !ok {
+			continue
+		}
+		if byFP == nil {
+			byFP = map[string][]*ssa.Function{}
+			for fn := range e.allFns {
+				if rootPkg(fn) == e.pkg && fn.Parent() == nil && len(fn.Blocks) >= 1 {
+					byFP[bodyFingerprint(fn)] = append(byFP[bodyFingerprint(fn)], fn)
+				}
+			}
+		}
+		if c := byFP[fp]; len(c) == 1 && e.contracts.lookup(fnName(c[0])) == nil {
+			e.fnCache[fnn] = c[0]
+			e.contracts.fns[fnName(c[0])] = e.contracts.fns[fnn]
+			fmt.Fprintf(os.Stderr, "note: %s is found again as %s (same body)\n", fnn, fnName(c[0]))
+		}
+	}
 }
